@@ -147,3 +147,9 @@ PROPS["C07"]["tlaps"] = [dict(spec="proofs/ModArithProofs.tla")]
 PROPS["C08"]["tlaps"] = [dict(spec="proofs/ModArithProofs.tla")]
 PROPS["C13"]["tlaps"] = [dict(spec="proofs/SignedProofs.tla")]
 PROPS["C06"]["tlaps"] = [dict(spec="proofs/SignedProofs.tla")]
+
+# input classes (tla/Labels.tla) that every run of the recorder must populate: the recorders' vacuity guard
+import re as _re, os as _os
+_labels = sorted(set(_re.findall(r'"(C\d\d\.[a-z0-9_]+)"', open(_os.path.join(_os.path.dirname(_os.path.dirname(_os.path.abspath(__file__))), "tla", "Labels.tla")).read())))
+for _l in _labels:
+    PROPS[_l[:3]].setdefault("required_classes", []).append(_l)
